@@ -100,26 +100,32 @@ Example C30_ex_count :
   = inr (FDone 3 6 3 1 0).
 Proof. vm_compute. split; reflexivity. Qed.
 
-(* Finding on the unchanged tree (real-code reproduction in harness/c30): the VM environment ignores the CONFIGURED
-   call-depth limit (runtime/vm_environment.go sets StackDepthLimit = defaultStackDepthLimit = 2000 whatever
-   runtime.Config.StackDepthLimit says).  In the model: the VM run under the configured limits and the VM run
-   under the limits the code really uses differ.  The statement "recursion deeper than the configured limit fails
-   the same way in both engines" therefore holds for the model under the configured limit (C30_ex_rec) and is
-   refuted for the code-shaped limits: *)
-Definition vm_code_limits (lim : limits) : limits := mk_limits (l_comp lim) (l_mem lim) 2000.
-Definition C30_depth_statement : Prop :=
-  forall lim funs main j,
-    run_pow vm_profile (vm_code_limits lim) funs j (init vm_profile (vm_code_limits lim) main) = inr (FLimit LimitDepth)
-    <-> run_pow vm_profile lim funs j (init vm_profile lim main) = inr (FLimit LimitDepth).
-(* recursion 30 deep, configured limit 10 *)
+(* Both engines, under the CONFIGURED limit: in every reachable state at most l_depth calls are in progress
+   (the VM also counts the entry point, so one less), i.e. recursion deeper than the configured limit is
+   impossible in either engine; the run then ends with LimitDepth (examples below).
+   (Before fix 0182225 the VM ignored the configured limit; the refuted statement was removed with the fix.) *)
+Theorem C30_depth_limit_both_engines : forall (vm : bool) lim funs main n c,
+  let pr := if vm then vm_profile else interp_profile in
+  0 <= l_depth lim ->
+  steps pr lim funs n (init pr lim main) = inl c ->
+  Z.of_nat (n_ret (k c)) <= l_depth lim.
+Proof.
+  intros vm lim funs main n c pr Hd H.
+  destruct (C30_depth_bounded pr lim funs main n c H) as [E L].
+  unfold pr in E, L. destruct vm; cbn [count_main vm_profile interp_profile] in E, L; lia.
+Qed.
+Print Assumptions C30_depth_limit_both_engines.
+
+(* recursion 30 deep under a configured limit of 10: call-depth error in both engines; 9 deep: fine in both *)
 Definition f_rec30 : list (list stmt) :=
   [[SIf (BLt (EVar 0) (EConst 1)) [SReturn (EConst 0)] []; SCall 2 0 [ESub (EVar 0) (EConst 1)]; SReturn (EVar 2)]].
-Theorem C30_vm_configured_depth_refuted : ~ C30_depth_statement.
-Proof.
-  intro H. specialize (H (L 100000 None 10) f_rec30 [SCall 0 0 [EConst 30]; SReturn (EVar 0)] 12%nat).
-  destruct H as [_ H]. assert (E : run_pow vm_profile (L 100000 None 10) f_rec30 12
-    (init vm_profile (L 100000 None 10) [SCall 0 0 [EConst 30]; SReturn (EVar 0)]) = inr (FLimit LimitDepth))
-    by (vm_compute; reflexivity).
-  specialize (H E). vm_compute in H. discriminate H.
-Qed.
-Print Assumptions C30_vm_configured_depth_refuted.
+Example C30_ex_configured_limit :
+  run_pow interp_profile (L 100000 None 10) f_rec30 12
+    (init interp_profile (L 100000 None 10) [SCall 0 0 [EConst 30]; SReturn (EVar 0)]) = inr (FLimit LimitDepth)
+  /\ run_pow vm_profile (L 100000 None 10) f_rec30 12
+    (init vm_profile (L 100000 None 10) [SCall 0 0 [EConst 30]; SReturn (EVar 0)]) = inr (FLimit LimitDepth)
+  /\ (exists a b d e, run_pow interp_profile (L 100000 None 10) f_rec30 12
+    (init interp_profile (L 100000 None 10) [SCall 0 0 [EConst 7]; SReturn (EVar 0)]) = inr (FDone 0 a b d e))
+  /\ (exists a b d e, run_pow vm_profile (L 100000 None 10) f_rec30 12
+    (init vm_profile (L 100000 None 10) [SCall 0 0 [EConst 7]; SReturn (EVar 0)]) = inr (FDone 0 a b d e)).
+Proof. vm_compute. repeat split; repeat eexists. Qed.
